@@ -1,7 +1,19 @@
 /-
 C05  2-D histogram bins every point exactly once, independent of thread schedule.
 
-Property theorems (listed in Audit/C05.lean); helper lemmas are in the section `Lemmas`.
+Property theorems (the ones listed in Audit/C05.lean):
+  index_spec_unique, inBin_unique, C05_cell_spec, C05_nonfinite_no_cell   exactly one bin or none; edges bracket the point
+  C05_index_floor_eq_spec, C05_cell_floor_eq_spec                floor rule = Spec
+  C05_trunc_witness, C05_trunc_below_range                       negation for the code as written (`int()` truncates)
+  C05_index_trunc_eq_spec_partial                                ... which is wrong only on (xmin − dx, xmin)
+  C05_counts, C05_sum, C05_sum_mean, C05_conservation            counts / sum / mean layers, mask, totals
+  accum_perm, C05_perm                                           order independence
+  interleave_perm, C05_sched, C05_sched_counts, C05_sched_sum    every interleaving, every chunking: Spec result
+  sharedRMW_loses_update, sharedRMW_one_thread                   the racy discipline loses a count; not with one thread
+  C05_auto_limits_cover                                          automatic range contains every finite value
+  accumArr_eq, updsOf_eq_updsZ                                   what the driver executes = the modelled fold
+Everything else in this file is a helper lemma (kept here: this check may only add the files of
+its own property). Each property theorem has a non-vacuity `example` at the end.
 -/
 import OsyrisModel.Hist
 import Mathlib.Algebra.Order.Field.Rat
@@ -28,6 +40,9 @@ theorem floor_bracket (x xmin dx : Rat) (hdx : 0 < dx) (k : Int) :
   · rintro ⟨h1, h2⟩; constructor <;> linarith
   · rintro ⟨h1, h2⟩; constructor <;> linarith
 
+/-- **index_spec_unique**: a finite coordinate is in bin `k` iff `k` is a bin of the grid whose edges
+    bracket it, `xmin + k·dx ≤ x < xmin + (k+1)·dx`. Being a function, `Spec.index` names at most
+    one bin; the right-hand side says which one, and that there is none outside `[xmin, xmin + n·dx)`. -/
 theorem index_spec_unique (x xmin dx : Rat) (n : Nat) (hdx : 0 < dx) (k : Nat) :
     Spec.index x xmin dx n = some k ↔ k < n ∧ InBin x xmin dx k := by
   unfold Spec.index InBin
@@ -59,6 +74,16 @@ theorem index_spec_unique (x xmin dx : Rat) (n : Nat) (hdx : 0 < dx) (k : Nat) :
 
 
 
+/-- bins are disjoint: a coordinate is bracketed by the edges of at most one bin -/
+theorem inBin_unique (x xmin dx : Rat) (hdx : 0 < dx) (k k' : Nat) (h : InBin x xmin dx k) (h' : InBin x xmin dx k') :
+    k = k' := by
+  have e1 : ⌊(x - xmin) / dx⌋ = (k : Int) := (floor_bracket x xmin dx hdx k).mpr (by simpa [InBin] using h)
+  have e2 : ⌊(x - xmin) / dx⌋ = (k' : Int) := (floor_bracket x xmin dx hdx k').mpr (by simpa [InBin] using h')
+  have : (k : Int) = (k' : Int) := e1.symm.trans e2
+  exact_mod_cast this
+
+/-- **floor rule = Spec**: `int(np.floor(q))` followed by the range test on the index is the
+    half-open range test on the coordinate followed by `⌊q⌋` -/
 theorem C05_index_floor_eq_spec (x xmin dx : Rat) (n : Nat) (hdx : 0 < dx) :
     index .floor x xmin dx n = Spec.index x xmin dx n := by
   have key : (0 ≤ ⌊(x - xmin) / dx⌋ ∧ ⌊(x - xmin) / dx⌋ < (n : Int)) ↔ (xmin ≤ x ∧ x < xmin + (n : Rat) * dx) := by
